@@ -60,3 +60,15 @@ Theorem C04_reciprocal : forall z prec r, cfin z -> (0 < cabs2 z)%R -> 0 < prec 
 Proof. exact mpc_reciprocal_spec. Qed.
 Example C04_div_witness : mpc_div (fone, fone) (fone, Mpf 1 1 0 1) 53 RN = Ok (fzero, fone).   (* (1+i)/(1-i) = i *)
 Proof. vm_compute. reflexivity. Qed.
+
+(* non-negative integer powers, exact branch: both components are the correctly rounded parts of (a + bi)^n *)
+From MP Require Import Proofs.CplxPow.
+Theorem C04_pow_int : forall z n prec r, cfin z -> (cre z <> 0)%R -> (cim z <> 0)%R -> 0 < prec ->
+  3 <= Zpos n -> Zpos n * (Z.abs (mexp (fst z) - mexp (snd z)) + Z.max (mbc (fst z)) (mbc (snd z))) < 10000 ->
+  exists q, mpc_pow_int_nonneg z (Zpos n) prec r = Ok q /\
+    cre q = RND r prec (fst (rpow (cre z, cim z) (Pos.to_nat n))) /\
+    cim q = RND r prec (snd (rpow (cre z, cim z) (Pos.to_nat n))).
+Proof. exact mpc_pow_int_exact_branch. Qed.
+Print Assumptions C04_pow_int.
+Example C04_pow_witness : mpc_pow_int_nonneg (fone, fone) 4 53 RN = Ok (Mpf 1 1 2 1, fzero).   (* (1+i)^4 = -4 *)
+Proof. vm_compute. reflexivity. Qed.
